@@ -51,7 +51,7 @@ struct ArrayMirror {
 	qb_array_new_bin_cb_fn new_bin_cb;
 };
 
-static int p_h7, p_after_unlock, p_handoff_in_op, p_moved, p_moved_during_index, p_autogrow, p_grow_refused, p_neg,
+static int p_huge, p_h7, p_after_unlock, p_handoff_in_op, p_moved, p_moved_during_index, p_autogrow, p_grow_refused, p_neg,
 	p_big, p_erange, p_either, p_cb, p_zero, p_reread_growth, p_reread_foreign, p_shared_idx, p_gate_wait, p_ptr_check, p_enomem_grow, p_enomem_index,
 	p_grow_moving, p_grow_noop, p_bin_edge, s_tasks[MAXT + 1], s_final_checked;
 
@@ -74,6 +74,7 @@ static void init(const char *)
 	p_reread_foreign = counter_id("probe", "pattern_reread_by_other_task");
 	p_shared_idx = counter_id("probe", "same_index_obtained_by_two_tasks");
 	p_gate_wait = counter_id("probe", "avoid_gate_waited");
+	p_huge = counter_id("probe", "unallocatable_element_size");
 	p_enomem_grow = counter_id("probe", "grow_failed_on_injected_allocation_failure");
 	p_enomem_index = counter_id("probe", "index_failed_on_injected_allocation_failure");
 	p_ptr_check = counter_id("probe", "saved_pointer_checked_without_index_call");
@@ -512,6 +513,9 @@ static void gen(const char *, RunSpec &spec)
 	// a fifth of the runs meet allocation failures inside index / grow calls
 	p.set("rate_alloc", r.chance(1, 5) ? (int64_t)r.range(1500, 14000) : 0);
 
+	// one run in forty: an element size whose bin (16 elements) no allocator can provide (run() then only asks for elements)
+	if (r.chance(1, 40)) p.set("huge", r.range(1, 6));
+
 	int nops = r.chance(1, 2) ? (int)r.range(2, 24) : (int)r.range(24, 90);
 	if (elsize >= 4096 && nops > 50) nops = 50;
 	uint32_t w_grow = 6 + (uint32_t)r.below(30), w_ptr = (uint32_t)r.below(14);
@@ -596,6 +600,30 @@ static void run(const char *, const RunSpec &spec)
 	v = p.get("rate_alloc", 0);
 	shim_cfg().rate_alloc = v < 0 ? 0 : v > 30000 ? 30000 : (uint32_t)v;
 	memset(g_alloc_failed, 0, sizeof g_alloc_failed);
+	v = p.get("huge", 0);
+	if (v > 0) {
+		// "for all element sizes": sizes for which 16 elements exceed any address space (and, from 2^60 on, size_t itself).
+		// Creating such an array is accepted; every qb_array_index must then fail, there is no storage it could hand out.
+		static const size_t HUGE_ES[6] = { ((size_t)1 << 60) + 4, ((size_t)1 << 61) + 4, ((size_t)1 << 63) + 1, SIZE_MAX / 16 + 2, (size_t)1 << 62, (size_t)1 << 50 };
+		size_t es = HUGE_ES[(size_t)(v - 1) % 6];
+		set_nontrivial(1);
+		count(p_huge);
+		qb_array_t *a = qb_array_create_2(init > 64 ? 64 : init, es, G.autogrow);
+		if (a) {
+			static const int32_t IDX[5] = { 0, 2, 8, 17, 33 };
+			for (int k = 0; k < 5 && !failed(); k++) {
+				void *addr = NULL;
+				int32_t rc = qb_array_index(a, IDX[k], &addr);
+				ev(120, IDX[k], rc);
+				if (rc == 0)
+					fail("index-succeeded-for-unallocatable-element-size", "qb_array_index", "qb_array_index(%d) of an array with element size %zu returned 0 and address %p: 16 such elements cannot have been allocated",
+					     IDX[k], es, addr);
+			}
+			qb_array_free(a);
+		}
+		Gp = NULL;
+		return;
+	}
 	errno = 0;
 	G.arr = qb_array_create_2(init, G.elsize, G.autogrow);
 	if (!G.arr) {
